@@ -16,12 +16,13 @@ def run(ctx, envs=(None,)):
     sums = []
     for env in envs:
         sfile = os.path.join(ctx.work, "num-%s.json" % (env or "default").replace("=", ""))
-        args = ["num", "-dump", r["dump"], "-dumpmag", r2["dump"], "-out", sfile, "-seed", ctx.seed, "-floats", ctx.pick(120, 1500)]
+        dfile = sfile[:-5] + ".dg"
+        args = ["num", "-dump", r["dump"], "-dumpmag", r2["dump"], "-out", sfile, "-seed", ctx.seed, "-floats", ctx.pick(120, 1500), "-digests", dfile]
         if env:
             args += ["-env", env]
-        vf.vh(ctx, args, timeout=3000)
+        vf.vh(ctx, args, timeout=3000, env=(dict(x.split("=", 1) for x in env.split(",")) if env else None))
         s = json.load(open(sfile))
-        s["env"] = env
+        s["env"], s["digests"] = env, dfile
         s["tlc"] = {"distinct": r["distinct"] + r2["distinct"], "generated": r["generated"] + r2["generated"]}
         sums.append(s)
     os.remove(r["dump"])
